@@ -195,6 +195,19 @@ PROPS['C18'] = {
     'level_text': 'bounded model checking of the service routines for every register / memory state and every input line within the bound',
     'level_note': 'trusted: Kani/CBMC/solver soundness, std::fmt for turning the logged values into text',
 }
+PROPS['C17'] = {
+    'explanation': 'the five Print actions of driver/print.lalrpop (binary crate) with print!/println! redirected to a ghost log of (format literal, argument values): '
+                   'print reg shows under each label the register the label names, with spec {:04X}, all twelve; print flags the nine flag bits as 0/1 under their labels; '
+                   'print mem exactly the bytes of the inclusive range in address order as {:02X}, 16 per row; backwards / out-of-space ranges are reported, nothing printed; '
+                   'no index outside the memory; the machine is unchanged',
+    'bounds': 'printed range <= 17 bytes (start arbitrary, so ranges ending at 0xFFFFF are covered), unwinding assertions on',
+    'outside': 'rendering of the logged values into text (std::fmt), the interactive prompt path (user_interface), the assembler/interpreter side of the print statement (C10/C14)',
+    'backends': [(r'reg_flags', ['sat', 'z3']), (r'print_mem', ['sat-arrays', ('z3', 'cvc5')]), (r'.*', [('z3', 'cvc5'), 'sat-arrays'])],
+    'timeout': {'quick': 600, 'thorough': 2400},
+    'assumptions': ['print!/println! are shadowed by logging macros in the scratch copy (lib/gen.py); the argument expressions are the real ones'],
+    'level_text': 'bounded model checking of value flow and range logic for every machine state and every range within the bound',
+    'level_note': 'partial claim: values and ranges, not the final text; no prompt',
+}
 
 NOT_APPLICABLE = {
     'C13': 'macro definition/use is regex::Regex + a recursive call of the generated parser on heap strings; Kani cannot compile the regex engine or the LALRPOP driver (compiler ICE), and a hand model of the substitution would not be the real code',
